@@ -8,7 +8,7 @@ for id in "$@"; do echo $id; done > /tmp/psweep/all.txt
 k=0
 while [ $k -lt $N ]; do
   git -C /repo worktree add -q --detach /tmp/psweep/r$k HEAD
-  rsync -a --exclude .git --exclude replays /verif/ /tmp/psweep/v$k/ || true
+  rsync -a --exclude .git --exclude replays ${VERIF_SRC:-/verif}/ /tmp/psweep/v$k/ || true
   sed -i "s#path = \"/repo\"#path = \"/tmp/psweep/r$k\"#" /tmp/psweep/v$k/harness/Cargo.toml
   awk -v n=$N -v k=$k 'NR % n == k' /tmp/psweep/all.txt > /tmp/psweep/list$k.txt
   k=$((k+1))
